@@ -503,11 +503,8 @@ pub trait TS {
     where
         Self: 'static,
     {
-        let path = <Self as crate::TS>::default_output_path()
-            .ok_or_else(std::any::type_name::<Self>)
-            .map_err(ExportError::CannotBeExported)?;
-
-        export::export_to::<Self, _>(path)
+        // like `export_all`, write to the normalised path, so that both record the same file
+        export::export_into::<Self>(&*export::default_out_dir())
     }
 
     /// Manually export this type to the filesystem, together with all of its dependencies.  
